@@ -28,7 +28,7 @@ func vMkHash(cs *clientState, k, name string) *vHashModel {
 	m := &vHashModel{}
 	for i, f := range vFieldPool {
 		if vBool(name + ".has") {
-			v := vStringN(name+".v", 1)
+			v := vStringN(name+".v", 1+vTier())
 			vCmd(cs, "HSET", k, f, v)
 			m.present[i] = true
 			m.val[i] = v
@@ -176,7 +176,7 @@ func VerifH_c04_read() {
 		}
 	case 1:
 		if !wrong && m.present[i1] {
-			lv := vString("lv", 3)
+			lv := vString("lv", 3+vTier())
 			vCmd(cs, "HSET", "h", f, lv)
 			m.val[i1] = lv
 		}
